@@ -265,6 +265,19 @@ theorem C01_resume_accept_implies_secret (C : Crypto) (prevShared eph : Bytes) (
   subst this
   exact ⟨hsid, ⟨tag, htag, hopen⟩, rfl⟩
 
+/-- on the resume path too the state/error check comes first: a resumed session is accepted only for a reply
+    whose state is M2 and that carries no error - and then only under the conditions of the previous theorem -/
+theorem C01_resume_requires_clean_reply (C : Crypto) (prevShared eph : Bytes) (m2 : Items) (r : Bytes × Bytes)
+    (h : verifyM2Resume C prevShared eph m2 = .ok (some r)) :
+    handleStateStep m2 [2] = .ok () ∧ resumeM3 C prevShared eph m2 = some r := by
+  unfold verifyM2Resume at h
+  split at h
+  · cases h
+  · rename_i hs
+    refine ⟨hs, ?_⟩
+    have := Except.ok.inj h
+    exact this
+
 /-- tie to the labels and nonces in the source (regenerated on every run): the model's literals are
     exactly those of `get_session_keys`, `resume_m1`, `resume_m3`, in source order -/
 theorem C01_gen_tie :
